@@ -353,6 +353,11 @@ func main() {
 			os.WriteFile(path, []byte(b.String()), 0644)
 			res.Replays = append(res.Replays, path)
 			res.Mismatches = append(res.Mismatches, fmt.Sprintf("seq %d line %d: %q impl=%s model=%s", s, d, lines[d], trunc(impl[d]), trunc(model[min(d, len(model)-1)])))
+			// a broken tree makes most sequences disagree; three minimized replays per worker are
+			// enough to report, and the time spent on shrinking stays bounded
+			if len(res.Violations) >= 3 {
+				break
+			}
 		}
 	}
 	w := bufio.NewWriter(os.Stdout)
